@@ -306,4 +306,4 @@ CLAIM = ("Seeded exploration: keys of every class are made by every path and tak
          "that the model says is protected, the return code (CKR_ATTRIBUTE_SENSITIVE), the reported length (CK_UNAVAILABLE_INFORMATION) and the caller's canary-filled exact-size buffer (no byte written; ASan red zones beyond "
          "it) are checked and every output is scanned for the key's value; CKA_EXTRACTABLE=false never wraps, CKA_WRAP_WITH_TRUSTED only under a trusted key, protections are never removed by set or copy, and keys "
          "derived with the concatenation mechanisms inherit them. The schedule dimension (a racing flag change) is not exercised here. Evidence, not proof.")
-NOTE = "Trusted: reference model of the flags incl. inheritance rules of PKCS#11 v2.40 2.31.4-2.31.7; the RNG seam (a generated key's value is the first draw of its length)."
+NOTE = "Trusted: reference model of the flags incl. inheritance rules of PKCS#11 v2.40 2.31.4-2.31.7; the RNG seam (a generated key's value is the first draw of its length). Every fourth plan runs on the SQLite object store over the simulated disk with one read-side I/O error inside up to three of the calls that read a secret attribute: there a call may fail in any way (also on later reads of an object the store has given up on) but never reveal a byte of the value."
